@@ -3,10 +3,11 @@
 From Coq Require Import List NArith Bool Strings.Byte.
 From Coq Require Import Strings.String.
 Import ListNotations.
-Require Import Conf ConfMerge ConfTotal ConfIdem.
+Require Import Conf ConfMerge ConfTotal ConfIdem ConfPrint ConfDepth.
 Local Open Scope N_scope.
 
-(* reading ANY byte sequence terminates with success or one of the four error kinds: the fuel the model gives itself is never
+(* reading ANY byte sequence terminates with success or one of the five error kinds (the fifth, EDeep, is the nesting limit
+   below): the fuel the model gives itself is never
    exhausted ... *)
 Theorem parsing_is_total : forall data, parse data <> inl EFuel.
 Proof. exact parse_total. Qed.
@@ -32,6 +33,25 @@ Theorem parsed_tree_is_sorted : forall data ks, parse data = inr ks -> tsorted k
 Proof. exact parse_result_sorted. Qed.
 Print Assumptions parsed_tree_is_sorted.
 
+(* objects may be nested at most max_depth = CONF_MAX_DEPTH = 64 deep.  nestl k = k times "a{"; nest k inner = inner with k
+   objects a{ ... } around it.  A text that opens more than max_depth objects inside one another is refused with EDeep at the
+   opening brace of object max_depth + 1, whatever follows (so nothing of that object is read or created) ... *)
+Theorem deep_nesting_is_rejected : forall k rest, (max_depth < k)%nat -> parse (nestl k ++ rest) = inl EDeep.
+Proof. exact ConfDepth.deep_nesting_is_rejected. Qed.
+Print Assumptions deep_nesting_is_rejected.
+
+(* ... exactly max_depth objects are accepted (65 are not: ConfDepth.nest_65_is_rejected) ... *)
+Theorem nesting_up_to_the_limit_is_accepted :
+  parse (nest 64 (S_ "x y;"%string) ++ [SEMI]) = inr (vnest 64 [(S_ "x"%string, VStr (S_ "y"%string))]).
+Proof. exact ConfDepth.nesting_up_to_the_limit_is_accepted. Qed.
+Print Assumptions nesting_up_to_the_limit_is_accepted.
+
+(* ... and every tree that a successful read returns is at most max_depth objects deep (pdepth: a VObj is one more than its
+   deepest child): the recursion of the parser, and of everything that walks its result (merge, clean-up), is bounded *)
+Theorem parse_never_recurses_deeper_than_the_limit : forall data t, parse data = inr t -> (pdepth t <= max_depth)%nat.
+Proof. exact ConfDepth.parse_never_recurses_deeper_than_the_limit. Qed.
+Print Assumptions parse_never_recurses_deeper_than_the_limit.
+
 (* "when it reports an error, the live configuration is exactly what it was before, and no change notification is delivered":
    in ANY state of the live tree (registered values, lists, pairs, present nodes all live in st) a load whose text does not parse
    leaves the state equal, prints the unchanged dump and emits no hook line.  exec is the model compared with src/config.c
@@ -43,3 +63,9 @@ Theorem failed_load_changes_nothing : forall st data e,
   Forall (fun l => is_hookline l = false) (snd (exec st (CLoad data))).
 Proof. exact failed_load_unchanged. Qed.
 Print Assumptions failed_load_changes_nothing.
+
+(* the model's limit IS the constant of src/config.h (Params.v is regenerated from the headers on every run) *)
+Require Params.
+Theorem model_limit_is_the_header_constant : max_depth = Params.CONF_MAX_DEPTH.
+Proof. exact (eq_refl 64%nat). Qed.
+Print Assumptions model_limit_is_the_header_constant.
